@@ -131,7 +131,7 @@ func c09(c *q.Ctx) {
 	su := c.Fn(sb + "(*UTXOReader).SelectUtxo")
 	if su != nil {
 		c.CondCount(su, "(big.(*Int).Cmp(local<Int>,p2) < 0)", 2, "selection continues while, and fails if, the selected sum is below the requested amount: it stops as soon as the amount is covered exactly")
-		c.Guard(su, q.Cond{Canon: "bytes.Equal(protos.(*TxInput).GetFromAddr(p0.inputCache[p0.inputIdx:][]),p1)", Sense: false}, q.ToSuccess(), q.Opt{})
+		c.Guard(su, q.Cond{Canon: "bytes.Equal(p0.inputCache[p0.inputIdx:][].FromAddr,p1)", Sense: false}, q.ToSuccess(), q.Opt{})
 		c.FieldStoreAny(su, "UTXOReader.inputIdx", "(p0.inputIdx + *)", "the cursor advances past the inputs just consumed (never resets)")
 	}
 }
